@@ -3,7 +3,7 @@
 # Independent confirmation in a scratch worktree (/tmp/seed/confirm-wt) with its own target dir:
 #   1. demo passes on the unchanged tree   2. demo fails with patch.diff   3. the crate's existing suite passes with patch.diff (demo removed)
 d=$1; crate=$2; filter=$3; scope=${4:---lib}
-wt=/tmp/seed/confirm-wt; export CARGO_TARGET_DIR=/tmp/seed/tgc CARGO_NET_OFFLINE=true; unset RUSTFLAGS
+wt=${CONFIRM_WT:-/tmp/seed/confirm-wt}; export CARGO_TARGET_DIR=${CONFIRM_TG:-/tmp/seed/tgc} CARGO_NET_OFFLINE=true; unset RUSTFLAGS
 cd $wt || exit 9
 git checkout -q -- . ; git clean -fdq crates
 git -C $wt checkout -q --detach $(git -C /repo rev-parse HEAD)
